@@ -20,7 +20,7 @@ func init() {
 		Level: "exploration",
 		Rule: "generated streams (clean, with continuity gaps, with adaptation-only packets interleaved, with runs of 1023..6000 consecutive skipped packets) x predicates {PID set, continuity counter, PUSI, adaptation flags (RAI, PCR, discontinuity), per-packet coin flips, skip-all, skip-none} x " +
 			"{NextPacket, NextData}: output with the skipper compared with the output on the stream with those packets deleted; every skipper invocation logged (count, order, header/AF vs reference decoding); " +
-			"parsers {observer, replacer returning 0..3 synthetic data, failing on the n-th unit}: groups logged and compared with the model's units; distinct = hash(stream, predicate/parser); " +
+			"parsers {observer, replacer returning 0..3 synthetic data, failing on the n-th unit}: groups logged and compared with the model's units; plus units of 256..2100 packets after a mid-unit join under skipper + observer (stage giant) and runs of up to 140 000 skipped packets; distinct = hash(stream, predicate/parser); " +
 			"non-trivial = the predicate skipped ≥1 and kept ≥1 packet, or the parser saw ≥2 groups",
 		Assumptions: []string{"the filtered stream is built by the harness from the same per-packet decisions", "parser errors raised while draining at end of stream are logged by the library, not returned; only errors on the streaming path are required to surface"},
 		Shards:      32,
@@ -32,6 +32,7 @@ func init() {
 			need(m, &out, "packets_skipped", 3000)
 			need(m, &out, "adaptation_only_packets_in_streams", 500)
 			need(m, &out, "long_skipped_runs", 8)
+			need(m, &out, "giant_unit_streams", 12)
 			need(m, &out, "streams_with_unparsable_packets", 100)
 			need(m, &out, "parser_runs_on_damaged_streams", 200)
 			need(m, &out, "parser_groups_observed", 1000)
@@ -84,8 +85,119 @@ func predicates(r *rand.Rand, s *gen.Stream) []pred {
 	}
 }
 
+// giantUnitsCase: a capture that joins PID 0x100 in the middle of a unit (continuation packets first), followed by units of 257 to a
+// few thousand packets, merged with a PID the skipper deletes and a PID of small units; an observing PacketsParser must be handed
+// every unit whole, once, and the data must be those of the filtered stream.
+func giantUnitsCase(c *mon.Ctx, idx int64, r *rand.Rand) {
+	a, b, d := newLongStream(), newLongStream(), newLongStream()
+	a.cc[0x100] = uint8(r.IntN(16))
+	for q := 0; q < []int{0, 1, 3, 20}[int(idx)%4]; q++ {
+		a.packet(0x100, false, longData(0x100, 900+q, 184)) // the end of a unit that started before the capture
+	}
+	sizes := []int{257, 256, 300, 1025, 1100, 2100}
+	for q := 0; q < 3; q++ {
+		n := sizes[(int(idx)+q*2)%len(sizes)]
+		a.pes(0x100, 0xe0, int64(100+q), longData(0x100, q, n*184-14-r.IntN(100)), false)
+		a.pes(0x100, 0xe0, int64(200+q), longData(0x100, 50+q, 1+r.IntN(400)), false)
+	}
+	for q := 0; q < 200+r.IntN(2000); q++ {
+		b.packet(0x200, q%7 == 0, longData(0x200, q, 184))
+	}
+	for q := 0; q < 10+r.IntN(30); q++ {
+		d.pes(0x101, 0xc0, int64(300+q), longData(0x101, q, 1+r.IntN(700)), true)
+	}
+	s := mergeStreams(r, a, b, d)
+	consulted := 0
+	type grp struct {
+		pid  uint16
+		n    int
+		pusi bool
+		bad  string
+	}
+	var groups []grp
+	cfg := DemuxCfg{PacketSize: 188, Reader: []string{"seek", "bufio", "plain"}[int(idx)%3], API: "data", MaxCalls: s.n + 64,
+		Skipper: func(p *astits.Packet) bool { consulted++; return p.Header.PID == 0x200 },
+		Parser: func(ps []*astits.Packet) ([]*astits.DemuxerData, bool, error) {
+			g := grp{}
+			if len(ps) == 0 {
+				g.bad = "empty group"
+			} else {
+				g.pid, g.n, g.pusi = ps[0].Header.PID, len(ps), ps[0].Header.PayloadUnitStartIndicator
+				for _, p := range ps {
+					if p.Header.PID != g.pid {
+						g.bad = "packets of several PIDs in one group"
+					}
+				}
+			}
+			groups = append(groups, g)
+			return nil, false, nil
+		}}
+	run := RunDemux(s.b, cfg)
+	c.Count("giant_unit_streams")
+	c.Case(mon.HashStr("c19giant", fmt.Sprint(idx)), true)
+	data := map[string]any{"packets": s.n, "units_on_0x100_packets": fmt.Sprint(func() (o []int) {
+		for _, u := range s.want[0x100] {
+			o = append(o, u.packets)
+		}
+		return
+	}())}
+	if run.Panic != "" {
+		c.Violate("C19/giant/panic", "giant", idx, run.Panic, data)
+		return
+	}
+	if es := run.Errors(); len(es) > 0 {
+		c.Violate("C19/giant/error-on-wellformed-stream", "giant", idx, es[0].Error(), data)
+		return
+	}
+	if consulted != s.n {
+		c.Violate("C19/skipper/consultation-count", "giant", idx, fmt.Sprintf("predicate consulted %d times for %d packets", consulted, s.n), data)
+	}
+	if dd := s.compareExcept(run.Datas(), 0x200); dd != "" {
+		c.Violate("C19/giant/data-differ-from-filtered-stream", "giant", idx, dd, data)
+	}
+	// the groups that start with a unit start, per PID, are the units of the stream
+	per := map[uint16][]grp{}
+	for _, g := range groups {
+		if g.bad != "" {
+			c.Violate("C19/parser/malformed-group", "giant", idx, g.bad, data)
+			return
+		}
+		if g.pid == 0x200 {
+			c.Violate("C19/parser/handed-skipped-packets", "giant", idx, "a group on the PID the skipper deletes", data)
+			return
+		}
+		if g.pusi {
+			per[g.pid] = append(per[g.pid], g)
+		}
+	}
+	for _, pid := range []uint16{0x100, 0x101} {
+		w := s.want[pid]
+		g := per[pid]
+		for k := range w {
+			if k >= len(g) || g[k].n != w[k].packets {
+				got := -1
+				if k < len(g) {
+					got = g[k].n
+				}
+				c.Violate("C19/parser/unit-not-handed-over-whole", "giant", idx, fmt.Sprintf("PID %#x unit %d has %d packets; the parser was handed %d groups starting a unit on that PID, number %d with %d packets", pid, k, w[k].packets, len(g), k, got), data)
+				return
+			}
+		}
+		if len(g) != len(w) {
+			c.Violate("C19/parser/unit-handed-over-more-than-once", "giant", idx, fmt.Sprintf("PID %#x: %d units, %d groups", pid, len(w), len(g)), data)
+			return
+		}
+		c.Add("parser_groups_observed", int64(len(g)))
+	}
+}
+
 func runC19(c *mon.Ctx) {
 	longRuns(c)
+	for i := int64(0); i < c.Pick(12, 240); i++ {
+		if c.Mine("giant", i) {
+			giantUnitsCase(c, i, c.Rng("giant", i))
+		}
+	}
 	n := c.Pick(1000, 120000)
 	for i := int64(0); i < n; i++ {
 		if !c.Mine("streams", i) {
@@ -165,7 +277,7 @@ func runC19(c *mon.Ctx) {
 // longRuns: a run of N consecutive packets the predicate skips (null packets, N around 1024 and beyond) in the middle of a stream:
 // one call has to pass over all of them, the result must still equal the filtered stream's, without an error.
 func longRuns(c *mon.Ctx) {
-	n := c.Pick(8, 80)
+	n := c.Pick(24, 96)
 	for i := int64(0); i < n; i++ {
 		if !c.Mine("long-run", i) {
 			continue
@@ -174,6 +286,9 @@ func longRuns(c *mon.Ctx) {
 		m := gen.RandomModel(r, gen.ModelOpts{MaxPES: 2, MaxPMT: 1, MaxSI: 1, MaxUnits: 3})
 		s0 := m.Build(r)
 		N := []int{1023, 1024, 1025, 2048, 2049, 3000 + r.IntN(3000), 1 + r.IntN(1500), 4096}[int(i)%8]
+		if i >= 8 && i%4 == 0 {
+			N = []int{65535, 65536, 65537, 70000 + r.IntN(70000)}[int(i/4)%4]
+		}
 		at := r.IntN(len(s0.Packets) + 1)
 		var pk []*astits.Packet
 		pk = append(pk, s0.Packets[:at]...)
